@@ -328,7 +328,10 @@ def draw_biv(rng, PDFs):
 def run_cache2d(spec, rec, dadi, DFE):
     PDFs = DFE.PDFs
     FIXED = [("biv_ind_gamma", [0.35, 0.5, 8.0, 12.0], (0.8, 15.0)), ("biv_lognormal", [1.0, 1.5, 1.8, 2.0, 0.3], (0.8, 15.0)),
-             ("biv_lognormal", [1.2, 2.0, 0.6], (1.0, 12.0))]
+             ("biv_lognormal", [1.2, 2.0, 0.6], (1.0, 12.0)),
+             # an asymmetric DFE concentrated at large |gamma|: its density at small gammas is far below 1e-8 (so is its asymmetry
+             # there), and much of its mass lies beyond the cached range, more in the second argument than in the first
+             ("biv_lognormal", [5.0, 6.0, 1.0, 1.0, 0.0], (1.0, 500.0)), ("biv_lognormal", [5.0, 5.5, 1.0, 1.2, 0.5], (1.0, 500.0))]
     for ci in range(-len(FIXED) if spec["b"] == 0 else 0, spec["n"]):
         rng = rng_for(spec["seed"], "C17c2", spec["b"], ci + 100)
         gpts = int(rng.integers(5, 10))
